@@ -3,7 +3,8 @@ import math
 
 ID = 'C11'
 FUNCTIONS = [('devices', 'LPF'), ('devices', 'BPF')]
-BOUNDS = {'call sites': 'BW, fs and the order n symbolic (design recorded, not executed): every parameter value',
+BOUNDS = {'call-history differential': 'for the blocks of this property registered in vf/history.py (concrete orders / bandwidths / gains / gv configurations, symbolic samples): the call repeated in a session that first ran it with one parameter or one gv setting changed equals the call in a fresh library instance',
+          'call sites': 'BW, fs and the order n symbolic (design recorded, not executed): every parameter value',
           'concrete designs': 'grid BW/fs in {0.05, 0.2, 0.44} x n in {2, 4} (quick) / {0.02,0.05,0.1,0.2,0.3,0.44} x {1,2,4,8} (thorough); '
                               'records of 17..28 symbolic samples; filter matrix = real scipy sosfiltfilt applied to the identity',
           'tone clauses': 'records of 128 samples, interior window 32..96, tone a*cos(wk)+b*sin(wk) with symbolic (a, b); cutoff tone and a ladder of frequencies'}
@@ -303,4 +304,6 @@ def configs(tier):
         out.append((f'tone-{kind}-bw{ratio}-n{n}', scen_tone, dict(kind=kind, order=n, ratio=ratio, ladder=(0.5, 1.5) if q else (0.25, 0.5, 0.75, 1.25, 1.5, 2.0)),
                     {'validate': 1}))
         out.append((f'symmetry-{kind}-bw{ratio}-n{n}', scen_symmetry, dict(kind=kind, order=n, ratio=ratio), {'validate': 1}))
+    from vf import history as _history        # call-history differential of this property's blocks (vf/history.py)
+    out += _history.configs_for('C11')
     return out
